@@ -572,7 +572,7 @@ class _Stop(Exception):
 
 def _loaded_first(node, v):
     """True when local ``v`` is read before anything that can have an effect while ``node`` (a statement) is evaluated.
-    Reads of plain names, literals and attribute reads on plain names count as effect-free."""
+    Reads of plain names, literals and attribute chains rooted at a plain name count as effect-free."""
     result = [False]
 
     def effect():
@@ -588,7 +588,10 @@ def _loaded_first(node, v):
             return
         if isinstance(n, ast.Attribute):
             ev(n.value)
-            if not isinstance(n.value, ast.Name):
+            base = n.value
+            while isinstance(base, ast.Attribute):
+                base = base.value
+            if not isinstance(base, ast.Name):
                 effect()
             return
         if isinstance(n, ast.Call):
@@ -1655,6 +1658,140 @@ def _is_neg(t):
     return isinstance(t, ast.UnaryOp) and isinstance(t.op, ast.Not)
 
 
+def _breaks_to_returns(stmts):
+    """``break`` of the enclosing loop (not of a nested one) -> ``return``"""
+    out = []
+    for st in stmts:
+        if isinstance(st, ast.Break):
+            out.append(ast.Return(value=None, lineno=st.lineno, col_offset=0))
+            continue
+        if isinstance(st, ast.If):
+            st.body = _breaks_to_returns(st.body)
+            st.orelse = _breaks_to_returns(st.orelse)
+        elif isinstance(st, ast.With):
+            st.body = _breaks_to_returns(st.body)
+        elif isinstance(st, ast.Try) and not st.finalbody:
+            st.body = _breaks_to_returns(st.body)
+            st.orelse = _breaks_to_returns(st.orelse)
+            for h in st.handlers:
+                h.body = _breaks_to_returns(h.body)
+        elif isinstance(st, (ast.For, ast.While)):
+            st.orelse = _breaks_to_returns(st.orelse)
+        out.append(st)
+    return out
+
+
+def _private_lists(fn):
+    """locals that are only ever bound to a fresh ``[]`` and only used through append / remove / iteration / truth /
+    len / whole-slice reset: nobody else can hold a reference to such a list"""
+    parents = {}
+    for p_ in ast.walk(fn):
+        for c_ in ast.iter_child_nodes(p_):
+            parents[c_] = p_
+    verdict = {}
+    for n in ast.walk(fn):
+        if isinstance(n, ast.arg):
+            verdict[n.arg] = False
+        if isinstance(n, (ast.Global, ast.Nonlocal)):
+            for nm in n.names:
+                verdict[nm] = False
+        if not isinstance(n, ast.Name) or verdict.get(n.id) is False:
+            continue
+        p_ = parents.get(n)
+        ok = False
+        if isinstance(n.ctx, ast.Store):
+            ok = isinstance(p_, ast.Assign) and len(p_.targets) == 1 and p_.targets[0] is n \
+                and isinstance(p_.value, ast.List) and not p_.value.elts
+            if ok:
+                verdict.setdefault(n.id, True)
+        elif isinstance(n.ctx, ast.Load):
+            if isinstance(p_, ast.Attribute) and p_.attr in ("append", "remove", "clear", "pop", "insert", "extend") \
+                    and isinstance(parents.get(p_), ast.Call) and parents[p_].func is p_ \
+                    and isinstance(parents.get(parents[p_]), ast.Expr):
+                ok = True
+            elif isinstance(p_, (ast.For, ast.comprehension)) and p_.iter is n:
+                ok = True
+            elif isinstance(p_, (ast.If, ast.While, ast.IfExp)) and p_.test is n:
+                ok = True
+            elif isinstance(p_, ast.UnaryOp) and isinstance(p_.op, ast.Not):
+                ok = True
+            elif isinstance(p_, ast.BoolOp):
+                ok = isinstance(parents.get(p_), (ast.If, ast.While)) and parents[p_].test is p_
+            elif isinstance(p_, ast.Call) and isinstance(p_.func, ast.Name) and p_.func.id == "len" and p_.args == [n]:
+                ok = True
+            elif isinstance(p_, ast.Subscript) and p_.value is n and isinstance(p_.slice, ast.Slice) \
+                    and p_.slice.lower is None and p_.slice.upper is None and p_.slice.step is None \
+                    and isinstance(p_.ctx, (ast.Store, ast.Del)):
+                ok = True
+        if not ok:
+            verdict[n.id] = False
+    return {k for k, v in verdict.items() if v}, parents
+
+
+def _private_list_resets(fn):
+    """for a private list L (see above): ``del L[:]`` / ``L[:] = []`` / ``L.clear()`` outside any iteration over L is
+    ``L = []``; ``if L: <loops over L and resets of L>`` is its body (nothing happens for an empty L)"""
+    private, parents = _private_lists(fn)
+    if not private:
+        return False
+
+    def reset_of(st):
+        if isinstance(st, ast.Delete) and len(st.targets) == 1:
+            t = st.targets[0]
+        elif isinstance(st, ast.Assign) and len(st.targets) == 1 and isinstance(st.value, ast.List) and not st.value.elts:
+            t = st.targets[0]
+            if isinstance(t, ast.Name) and t.id in private:
+                return t.id
+        elif isinstance(st, ast.Expr) and isinstance(st.value, ast.Call) and isinstance(st.value.func, ast.Attribute) \
+                and st.value.func.attr == "clear" and not st.value.args and isinstance(st.value.func.value, ast.Name) \
+                and st.value.func.value.id in private:
+            return st.value.func.value.id
+        else:
+            return None
+        if isinstance(t, ast.Subscript) and isinstance(t.value, ast.Name) and t.value.id in private \
+                and isinstance(t.slice, ast.Slice) and t.slice.lower is None and t.slice.upper is None and t.slice.step is None:
+            return t.value.id
+        return None
+
+    def iterating(st, name):
+        p_ = parents.get(st)
+        while p_ is not None and p_ is not fn:
+            if isinstance(p_, ast.For) and isinstance(p_.iter, ast.Name) and p_.iter.id == name and st not in p_.orelse:
+                return True
+            if isinstance(p_, FuncTypes):
+                return False
+            p_ = parents.get(p_)
+        return False
+    changed = False
+    deep = []
+    for n in ast.walk(fn):
+        for fld in ("body", "orelse", "finalbody"):
+            b = getattr(n, fld, None)
+            if isinstance(b, list) and b and isinstance(b[0], ast.stmt):
+                deep.append(b)
+    for blk in deep:
+        for i, st in enumerate(list(blk)):
+            nm = reset_of(st)
+            if nm is not None and not isinstance(st, ast.Assign) and not iterating(st, nm):
+                blk[i] = ast.Assign(targets=[ast.Name(id=nm, ctx=ast.Store())], value=ast.List(elts=[], ctx=ast.Load()),
+                                    lineno=st.lineno, col_offset=0)
+                parents[blk[i]] = parents.get(st)
+                changed = True
+    for blk in deep:
+        i = 0
+        while i < len(blk):
+            st = blk[i]
+            if isinstance(st, ast.If) and not st.orelse and isinstance(st.test, ast.Name) and st.test.id in private \
+                    and all((isinstance(b, ast.For) and not b.orelse and isinstance(b.iter, ast.Name)
+                             and b.iter.id == st.test.id) or reset_of(b) == st.test.id for b in st.body) \
+                    and not iterating(st, st.test.id):
+                blk[i:i + 1] = st.body
+                changed = True
+                continue
+            i += 1
+    return changed
+
+
 def _norm_region(stmts, kind, ctx):
     """kind: 'func' (falls off into ``return None``), 'loop' (falls off into ``continue``) or None."""
     stmts = _norm_simple(list(stmts), ctx)
@@ -1745,6 +1882,9 @@ def _norm_region(stmts, kind, ctx):
                     id=a.targets[0].id, ctx=ast.Load())), lineno=st.lineno, col_offset=0)
         elif isinstance(st, (ast.For, ast.While)):
             c2 = dict(ctx, in_loop=True)
+            if k == "func" and not st.orelse:
+                # the loop is the last thing the function does: leaving it is returning
+                st.body = _breaks_to_returns(st.body)
             st.body = _norm_region(st.body, "loop", c2) or [ast.Pass()]
             st.orelse = _norm_region(st.orelse, None, ctx)
             if isinstance(st, ast.While) and not st.orelse and len(st.body) == 1 and isinstance(st.body[0], ast.If):
@@ -2635,6 +2775,7 @@ def canonical_ast(fn, helpers, methods=None, hier=None, segment=False):
     _zero_arg_gen_defs(f)
     ast.fix_missing_locations(f)
     f.body = docstring_free(f.body)
+    _private_list_resets(f)
     _ssa_toplevel(f)
     from .webs import split_webs
     split_webs(f)
